@@ -26,7 +26,9 @@ TTerminal == /\ More /\ Ev.ev = "terminal" /\ cur = Ev.r
              /\ \/ Ev.res = "completed" /\ EndCompleted
                 \/ Ev.res = "aborted" /\ EndAborted
              /\ Adv /\ UNCHANGED hres
-TCount == /\ More /\ Ev.ev = "count" /\ Ev.n = Cardinality(Of(Ev.r)) /\ Stutter /\ Adv /\ UNCHANGED hres
+\* the harness samples the list after every request has ended and after waiting (up to 3 s) for it to
+\* drain: by then ListDrains requires it to be empty
+TCount == /\ More /\ Ev.ev = "count" /\ Ev.n = 0 /\ Of(Ev.r) = {} /\ Stutter /\ Adv /\ UNCHANGED hres
 
 \* silent steps
 STake == Take /\ UNCHANGED <<tr, l, hres>>
